@@ -196,8 +196,14 @@ func checkC11(tier string) *Report {
 				if r2.Success {
 					// the transferred denom's stray balance (deposit + what the state already held) is on the dust collector
 					wantDust := new(big.Int).Set(s2.Get(w.Orb, D).BigInt())
+					// (+ what the payload itself pays to the dust collector as a fee recipient)
+					fr := feeRef(A, t.Spec.Fees)
+					for fi, f := range t.Spec.Fees {
+						if decodesTo(f.To, w.Dust) && fr.Refuse == "" {
+							wantDust.Add(wantDust, fr.Entries[fi])
+						}
+					}
 					gotDust := new(big.Int).Sub(a2.Get(w.Dust, D).BigInt(), s2.Get(w.Dust, D).BigInt())
-					// a fee entry / internal recipient that is the dust collector itself does not occur in this alphabet with success
 					if gotDust.Cmp(wantDust) != 0 {
 						rep.Violate(Violation{Kind: "stray-balance-not-on-dust-collector", Group: group, Sig: sig, Replay: replay(),
 							What: fmt.Sprintf("dust collector gained %s of %s, stray balance was %s [%s deposits %s] after %v", gotDust, D, wantDust, t.Label, dep, path)})
